@@ -16,6 +16,7 @@ R-RESDTYPE   the result variable takes its dtype from the computed value (values
 R-COORDPASS  coordinate variables are passed through from the left operand, before any arithmetic/masking.
 """
 import ast
+import re
 
 from ..engine import AnalysisError, dotted, iter_stmts, norm, walk_expr, kw, const_str, parent_chain
 from ..report import Finding
@@ -528,6 +529,59 @@ def run(ctx):
     else:
         ctx.violation(Finding('R-COORDKEYS', FILES, 'PseudoNetCDFFile._copywith', cw.body[-1], 'the copy does not receive the coordinate keys of the receiver on every path: results of file arithmetic / '
                               'mask() lose them and the next operation computes on the coordinate variables'))
+    # ---------------- R-EVALSTORE: an evaluated result replaces / creates the variable of its name; it is never written *into* the old one
+    ctx.rule('R-EVALSTORE', 'eval: a result is stored as the variable of its name, never assigned into the existing variable (that casts to the old dtype and drops the mask)')
+    evf = ctx.src.mod(FILES).func('PseudoNetCDFFile.eval')
+    wev2 = 'src/PseudoNetCDF/%s PseudoNetCDFFile.eval' % FILES
+    olds = set()
+    for st in iter_stmts(evf.body):
+        if isinstance(st, ast.Assign) and len(st.targets) == 1 and isinstance(st.targets[0], ast.Name) and re.search(r"\.variables(\.get\(|\[)", norm(st.value)) and 'vardict' not in norm(st.value):
+            olds.add(st.targets[0].id)
+    into = [st for st in iter_stmts(evf.body) if isinstance(st, (ast.Assign, ast.AugAssign)) and any(isinstance(t, ast.Subscript) and ((isinstance(t.value, ast.Name) and t.value.id in olds) or
+                                                                                                      re.match(r"^\w+\.variables\[\w+\]$", norm(t.value)))
+                                                                                                     for t in (st.targets if isinstance(st, ast.Assign) else [st.target]))]
+    if into:
+        ctx.violation(Finding('R-EVALSTORE', FILES, 'PseudoNetCDFFile.eval', into[0], 'the result is written into the existing variable (%s): its values are cast to the old type (COUNT = COUNT / 2 truncates) and a '
+                              'masked result assigned to a plain variable loses its mask' % norm(into[0])[:40]))
+    else:
+        ctx.ok('R-EVALSTORE', 'eval', wev2, 'results stored under their names')
+    # ---------------- R-COORDDEFAULT: the default coordinate keys of the command line keep every pinned key (a lost blank fuses two names)
+    ctx.rule('R-COORDDEFAULT', 'pncparse: the default --coordkeys string still contains every coordinate key of the pinned tree as a separate word')
+    try:
+        from .. import normalize as _nz
+        pm = ctx.src.mod('pncparse.py')
+        cur = pm.assigns.get('_coordkeys')
+        pinned_txt = _nz.pinned_text('pncparse.py') if hasattr(_nz, 'pinned_text') else None
+    except Exception:
+        cur, pinned_txt = None, None
+
+    from .. import consteval as _ce6
+
+    def _words(node):
+        v = _ce6.ev(node, {}) if node is not None else _ce6.UNK
+        if isinstance(v, str):
+            return set(v.replace(',', ' ').split())
+        if isinstance(v, (list, tuple)):
+            return set(v)
+        return None
+    curw = _words(cur.func.value if isinstance(cur, ast.Call) and isinstance(cur.func, ast.Attribute) and cur.func.attr == 'split' else cur)
+    pinw = None
+    if pinned_txt:
+        try:
+            pt = ast.parse(pinned_txt)
+            for st in pt.body:
+                if isinstance(st, ast.Assign) and isinstance(st.targets[0], ast.Name) and st.targets[0].id == '_coordkeys':
+                    v_ = st.value
+                    pinw = _words(v_.func.value if isinstance(v_, ast.Call) and isinstance(v_.func, ast.Attribute) and v_.func.attr == 'split' else v_)
+        except Exception:
+            pinw = None
+    if curw is None or pinw is None:
+        ctx.undec('R-COORDDEFAULT', '_coordkeys', 'src/PseudoNetCDF/pncparse.py', 'default key string not evaluable (current %s, pinned %s)' % (curw is not None, pinw is not None))
+    elif pinw <= curw:
+        ctx.ok('R-COORDDEFAULT', '_coordkeys', 'src/PseudoNetCDF/pncparse.py', 'all %d pinned keys present' % len(pinw))
+    else:
+        ctx.violation(Finding('R-COORDDEFAULT', 'pncparse.py', '<module>', '_coordkeys = ...', 'the default coordinate keys no longer contain %s (new words: %s): operators from the command line compute on those variables instead of '
+                              'passing them through' % (sorted(pinw - curw), sorted(curw - pinw)), lineno=getattr(cur, 'lineno', 1)))
     # ---------------- R-SEQLEFT: a chain of operators is evaluated left to right: the intermediate result is the left operand of the next
     ctx.rule('R-SEQLEFT', 'seqpncbo: the intermediate result goes back to the front of the file list (it is the left operand of the next operator)')
     sq = ctx.src.mod(FUNCS).functions.get('seqpncbo')
